@@ -18,6 +18,9 @@ Proof. split; vm_compute; reflexivity. Qed.
 Lemma instance_pkg_init_only : pkg_writes_outside_init table = [].
 Proof. vm_compute. reflexivity. Qed.
 
+Lemma instance_handout : handout_ok table = true.
+Proof. vm_compute. reflexivity. Qed.
+
 Lemma instance_guarded_present : guarded_present table = true /\ exempt_ok table = true.
 Proof. split; vm_compute; reflexivity. Qed.
 
